@@ -143,12 +143,43 @@ def unit_schedules(ctx, reps):
     hyp.run_enum(ctx, cases(), chk)
 
 
+def _dropped_key_bits(r):
+    """positions (0..63, MSB first) of the 8 master-key bits that PC-2 does not select in round r (from the reference tables)"""
+    cd = list(DR.PC1)
+    c, d = cd[:28], cd[28:]
+    for sft in DR.SHIFTS[:r + 1]:
+        c = c[sft:] + c[:sft]
+        d = d[sft:] + d[:sft]
+    sel = set((c + d)[i - 1] for i in DR.PC2)
+    return sorted(p - 1 for p in set(DR.PC1) - sel)
+
+
+def _with_dropped_bits(key, r, pattern):
+    """key with the 8 bits that round key r does not contain set to the bits of ``pattern`` (0..255)"""
+    bits = DR.bits([int(v) for v in key])
+    for i, pos in enumerate(_dropped_key_bits(r)):
+        bits[pos] = (pattern >> (7 - i)) & 1
+    return np.array(DR.pack(bits), dtype='uint8')
+
+
 def unit_des_master(ctx, reps, shard):
     def cases():
         for r in range(16):
             for rep in range(reps):
                 g = gen.rng(ctx.seed, 'master', shard, r, rep)
-                yield {'kind': 'des_master', 'key': g.integers(0, 256, size=8).astype('uint8'), 'pt': g.integers(0, 256, size=8).astype('uint8'), 'round': r}
+                key = g.integers(0, 256, size=8).astype('uint8')
+                # the 8 key bits missing from round key r are what get_master_key has to search: force boundary completions too
+                style = (rep + shard) % 4
+                if style == 1:
+                    key = _with_dropped_bits(key, r, 0xFF)
+                elif style == 2:
+                    key = _with_dropped_bits(key, r, 0x00)
+                elif style == 3:
+                    key = _with_dropped_bits(key, r, int(g.integers(0, 256)))
+                yield {'kind': 'des_master', 'key': key, 'pt': g.integers(0, 256, size=8).astype('uint8'), 'round': r}
+        for key in ([0xFF] * 8, [0x00] * 8, [0xFE] * 8, [0x01] * 8, [0xAA] * 8, [0x55] * 8):
+            if (shard + key[0]) % 3 == 0:
+                yield {'kind': 'des_master', 'key': np.array(key, dtype='uint8'), 'pt': gen.rng(ctx.seed, 'special', key[0]).integers(0, 256, size=8).astype('uint8'), 'round': (shard * 5 + key[0]) % 16}
     hyp.run_enum(ctx, cases(), check_des_master)
 
 
@@ -191,5 +222,16 @@ def units(tier):
     return us
 
 
+def _selftest_dropped_bits():
+    key = np.array([0x13, 0x34, 0x57, 0x79, 0x9B, 0xBC, 0xDF, 0xF1], dtype='uint8')
+    for r in range(16):
+        assert len(_dropped_key_bits(r)) == 8
+        k2 = _with_dropped_bits(key, r, 0xFF)
+        k3 = _with_dropped_bits(key, r, 0x00)
+        assert DR.schedule(bytes(k2))[r] == DR.schedule(bytes(key))[r] == DR.schedule(bytes(k3))[r]
+        assert bytes(k2) != bytes(k3)
+
+
 def selftest():
+    _selftest_dropped_bits()
     return AR.selftest() + ' ' + DR.selftest()
